@@ -511,7 +511,8 @@ func (t *timeTicker) Stop() {
 func (t *timeTicker) Next(now time.Time) time.Time {
 	next := now.Add(t.every)
 	if t.align {
-		next = next.Round(t.every)
+		// Same arithmetic as Start: the first boundary after now.
+		next = now.Truncate(t.every).Add(t.every)
 	}
 	return next
 }
